@@ -6,7 +6,7 @@ CONSTANTS
   NP = 1
   Names = {"a"}
   Vals = {1}
-  Acts = {"CreateGroup", "CreateObject", "AddData", "CreateWithUid", "RemoveViaWorkspace", "RemoveViaParent", "Copy", "Close", "Open", "DropRef", "Collect", "Purge", "LookupDead", "AddToGroup"}
+  Acts = {"CreateGroup", "CreateObject", "AddData", "CreateWithUid", "RemoveViaWorkspace", "RemoveViaParent", "Copy", "Close", "Open", "OpenAgain", "DropRef", "Collect", "Purge", "LookupDead", "AddToGroup"}
   Deviations = {"CloseKeepsOrphans"}
   MaxDepth = 6
 CONSTRAINT DepthBound
